@@ -1,5 +1,5 @@
 """Engine `isa` - C01: single-cycle RV32IM execution vs. the sequential reference (lockstep)."""
-from ..common import guarded, Result, rng_for, h64, make_riscv, install_program, build_instr, set_regs, preload_mem, real_regs, instr_text, M32
+from ..common import make_riscv_at, guarded, Result, rng_for, h64, make_riscv, install_program, build_instr, set_regs, preload_mem, real_regs, instr_text, M32
 from ..refmodels.rv32 import SeqRef, Fault, srcs, footprint, execute
 from ..gen import progs as G
 
@@ -72,6 +72,9 @@ def prog_case(rng):
         if rng.random() < 0.5:
             ic = rand_cfg(rng, small=True)
             case["icache"] = {x: ic[x] for x in ("ib", "bb", "assoc", "policy", "pen")}
+    case["blind"] = rng.random() < 0.5
+    if "icache" not in case and rng.random() < 0.15:
+        case["ibase"] = rng.choice([0x40, 0x100, 0x404, 0x1000, 0x2F00])
     return case
 
 
@@ -161,7 +164,15 @@ def run_case(prop, case, res):
     from architecture_simulator.simulation.runtime_errors import InstructionExecutionException
 
     cached = bool(case.get("dcache"))
-    sim = make_riscv("single", dcache=case.get("dcache"), icache=case.get("icache"))
+    if case.get("blind"):
+        res.count("prog_cases_memory_unobserved_while_running")
+    ibase = case.get("ibase", 0)
+    if ibase:
+        # instruction memory with another address range: program and start of execution move with it
+        sim = make_riscv_at("single", ibase, dcache=case.get("dcache"))
+        res.count("prog_cases_at_other_instruction_base")
+    else:
+        sim = make_riscv("single", dcache=case.get("dcache"), icache=case.get("icache"))
     if cached:
         res.count("prog_cases_with_caches")
     if case["kind"] == "instr":
@@ -178,7 +189,7 @@ def run_case(prop, case, res):
             # same program through the assembler (the description stays the source of truth)
             from .icache import asm_text
 
-            text = asm_text(case["prog"])
+            text = asm_text(case["prog"], ibase)
             if case.get("data"):
                 # part of the initial memory contents comes from a data segment (the assembler preloads it below
                 # the caches); the preloaded bytes of the case are written on top of it afterwards
@@ -191,9 +202,9 @@ def run_case(prop, case, res):
             sim.load_program(text)
             res.count("prog_cases_via_assembler")
         else:
-            install_program(sim, case["prog"])
-        prog = {4 * i: d for i, d in enumerate(case["prog"])}
-        addr = 0
+            install_program(sim, case["prog"], ibase)
+        prog = {ibase + 4 * i: d for i, d in enumerate(case["prog"])}
+        addr = ibase
         res.count("prog_cases")
         max_steps = case.get("max_steps", 300)
     set_regs(sim, case["regs"])
@@ -264,7 +275,9 @@ def run_case(prop, case, res):
             res.count("taken_transfers")
         if ref.x != before or r["kind"] == "store" or r["taken"] or r["out"] is not None or r["exit"] is not None:
             nontrivial = True
-        if not _cmp_state(sim, ref, res, case, "after step %d (pc=%d %s)" % (steps, pc, instr_text(d)), check_mem=fp):
+        # half of the program runs are never looked at through the memory interface while they run (registers, pc and
+        # output are plain attributes): a monitor's own reads must not be what keeps the memory honest
+        if not _cmp_state(sim, ref, res, case, "after step %d (pc=%d %s)" % (steps, pc, instr_text(d)), check_mem=None if case.get("blind") else fp):
             return
     # end of run: full memory image and termination
     ok, real = _full_mem(sim, ref)
